@@ -44,6 +44,7 @@ def run(ctx):
     fallback_constants(ctx, g)
     data_table(ctx, g)
     orbit_type_labels(ctx, g)
+    invariant_key(ctx, g)
     ctx.clauses.append("no panic from the point-group lookup (shared with C15)")
     c15.candidates(ctx, g)
     c15.point_groups(ctx, g)
@@ -114,6 +115,63 @@ def orbit_type_labels(ctx, g):
             ctx.ob("T2-mirror-test", b.name, "v = ds.v(i, j, d)", "ok" if okv else "violation", "the label's degree is the orbit's own branching number" if okv else "the degree is not ds.v(i, j, d): " + show(a, 1)[:60])
     ctx.require(v_ is not None, "T2-mirror-test", b.name, "v anchor", "degree found", "ds.v(i, j, d).unwrap() not found")
 
+
+
+def invariant_key(ctx, g):
+    """orbifold_invariant(): the key looked up in the table is assembled as
+    #labels / labels.. / orientation / #edges / #invariants / invariants.. / ""  with orientation "2" iff is_oriented(ds) (no mirrors AND
+    two-colourable), "1" iff not oriented but weakly oriented, "0" otherwise - a loopless but non-orientable symbol (glide reflections
+    only) must get "0"; the parts are pushed in this order"""
+    ctx.clauses.append("invariant key: orientation flag 2/1/0 decided by is_oriented / is_weakly_oriented; parts in table order (T4)")
+    b = ctx.body("euclidicity::orbifold_invariant")
+    ctx.scan([b])
+    ds = ("param", 1, b.debug.get(1, ""))
+    ori = ("call", "dsets::DSet::is_oriented", (ds,))
+    wk = ("call", "dsets::DSet::is_weakly_oriented", (ds,))
+    want = {"2": {ori: True}, "1": {ori: False, wk: True}, "0": {ori: False, wk: False}}
+    got = {}
+    sites = [(bi, strip(norm(b.origin(t["args"][0]), g))) for bi, t in b.calls("ToString::to_string")]
+    for bi, si, s_ in b.assigns():          # `let flag = if .. { "2" } ..; flag.to_string()`
+        v = strip(norm(b.rv_origin(s_["rv"]), g))
+        if v[0] == "str" and len(b.defs.get(s_["place"]["l"], [])) > 1:
+            sites.append((bi, v))
+    for bi, a in sites:
+        if a[0] == "str" and a[1] in want and a[1] not in got:
+            fa = {}
+            for x in b.facts_at(bi):
+                x = atom_norm(x, g)
+                if x[0] == "bool" and x[1][0] == "call" and x[1][1].startswith("dsets::DSet::is_"):
+                    fa[(x[1][0], x[1][1], tuple(strip(y) for y in x[1][2]))] = x[2]
+            got[a[1]] = fa
+    bad = []
+    for k, w in want.items():
+        if k not in got:
+            bad.append("flag %r is never produced" % k)
+        elif got[k] != w:
+            bad.append("flag %r is produced under %s, not under %s" % (k, {kk[1].split("::")[-1]: v for kk, v in got[k].items()}, {kk[1].split("::")[-1]: v for kk, v in w.items()}))
+    ctx.ob("T4-invariant-key", b.name, "orientation flag", "ok" if not bad else "violation",
+           '"2" iff is_oriented, "1" iff weakly oriented only, "0" otherwise' if not bad else
+           "; ".join(bad) + ": symbols without mirrors that are not orientable get a key that is not in the table")
+    # order of the parts
+    seq = []
+    for bi, blk in b.live_blocks():
+        t = blk["term"]
+        if t["k"] != "call":
+            continue
+        n_ = t["callee"].get("def", "")
+        if n_.endswith("Vec::<T, A>::push") or n_.endswith("Extend::extend"):
+            v = norm(b.origin(t["args"][1]), g)
+            v = norm(b.def_origin(v), g) if v[0] == "local" else v
+            s_ = show(v, 1)
+            kind = ("labels" if "orbifold_graph" in s_ and ".0" in s_ and "len(" not in s_ else "#edges" if "orbifold_graph" in s_ and ".1" in s_ else
+                    "#invariants" if "len(abelian_invariants" in s_ else "invariants" if "abelian_invariants" in s_ else "end" if s_.startswith("to_string('')") else "flag")
+            seq.append((bi, kind))
+    order = [k for bi, k in sorted(seq, key=lambda x: (0 if b.dominates(x[0], x[0]) else 0, x[0]))]
+    # blocks are numbered in program order for straight-line code; check with dominance
+    okseq = [k for bi, k in seq if k != "flag"] == ["labels", "#edges", "#invariants", "invariants", "end"] and \
+        all(b.dominates(seq[i][0], seq[i + 1][0]) for i in range(len(seq) - 1))
+    ctx.ob("T4-invariant-key", b.name, "order of parts", "ok" if okseq else "violation",
+           "labels, flag, #edges, #invariants, invariants, terminator are appended in table order" if okseq else "the parts of the key are appended as %s" % [k for bi, k in seq])
 
 
 def aggregates(ctx, variant):
